@@ -121,7 +121,7 @@ _SAFE_BUILTINS = {
     "reversed": lambda x: list(reversed(x)), "float": float, "round": round,
     "divmod": divmod, "zip": lambda *a: list(zip(*a)), "set": set,
     "frozenset": frozenset, "enumerate": lambda x: list(enumerate(x)),
-    "memoryview": lambda x: x,
+    "memoryview": lambda x: x, "dict": dict,
     "next": lambda it, *d: (list(it)[0] if list(it) else (d[0] if d else (_ for _ in ()).throw(StopIteration()))),
     "iter": lambda x: list(x),
 }
@@ -664,6 +664,8 @@ class Ev:
                 and isinstance(args[0], Arr) and not kw:
             return _SAFE_BUILTINS[f[1]](args[0].tobytes())          # buffer protocol
         if isinstance(f, tuple) and f and f[0] == "builtin":
+            if f[1] not in _SAFE_BUILTINS:
+                raise Unknown("builtin %s" % f[1])
             try:
                 return _SAFE_BUILTINS[f[1]](*args, **kw)
             except (ValueError, TypeError, OverflowError) as e:
